@@ -292,6 +292,31 @@ def check(case):
             r.register(c)
         v = r.match(hw, None)
         got.add(v.NAME if v is not None else None)
+    # the front end (HardwareView.vendor, what every caller reads) while vendors are still being registered - plug-ins register theirs
+    # after the built-in ones, possibly after the model was looked up once: after every registration it answers as the registry does
+    import annet.hardware as _H
+
+    class _Conn:
+        def __init__(self, reg):
+            self.reg = reg
+
+        def get(self, *a, **k):
+            return self.reg
+    saved_conn = _H.registry_connector
+    try:
+        for order in orders[:2]:
+            r = Registry()
+            _H.registry_connector = _Conn(r)
+            for c in order:
+                r.register(c)
+                v = r.match(hw, None)
+                front = HardwareView(model, soft).vendor
+                if front != (v.NAME if v is not None else None):
+                    raise Violation("front-end-vendor-stale", f"model {model!r}: after registering {[x.NAME for x in order[:order.index(c) + 1]]!r} "
+                                    f"the registry resolves it to {(v.NAME if v is not None else None)!r}, HardwareView.vendor says {front!r}",
+                                    dict(det, registered=[x.NAME for x in order[:order.index(c) + 1]]))
+    finally:
+        _H.registry_connector = saved_conn
     det["vendors"] = sorted(map(str, got))
     det["matching"] = matching
     ambiguous = bool(case.get("seq2")) and matching and exp is None
